@@ -205,6 +205,12 @@ impl Stats {
             self.nontrivial.insert(hash_of(key));
         }
     }
+    /// Count a violation whose signature is listed as an open known finding.
+    pub fn known(&mut self, sig: &str) {
+        if !self.frozen {
+            *self.known_hits.entry(sig.to_string()).or_insert(0) += 1;
+        }
+    }
     pub fn sample(&mut self, v: impl FnOnce() -> Value) {
         if !self.frozen && self.samples.len() < self.max_samples {
             self.samples.push(v());
@@ -470,6 +476,10 @@ impl Ctx {
         }
         let nt = self.stats.nontrivial.len() - before_nt;
         self.sub_stats.insert(sub.to_string(), (sub_eval, nt));
+        let hit: Vec<String> = self.stats.known_hits.keys().cloned().collect();
+        for sig in hit {
+            let _ = self.is_known_open(&sig);
+        }
         eprintln!(
             "[{} {}] sub={} evals={} nontrivial+={} {:.1}s",
             self.id,
